@@ -458,6 +458,29 @@ def bounded(tier, seed):
                     ds.close()
                 return None
             run.case('C07:variable attributes with reserved names / other types (%s)' % fl, fl, t)
+        # scalar (0-dimensional) variables: a masked one whose hidden value differs from the fill value, and a plain one
+        for fl in flavours:
+            f = P.PseudoNetCDFFile()
+            f.createDimension('x', 2)
+            f.createVariable('x', 'f', ('x',), values=np.array([1., 2.], 'f'))
+            f.createVariable('sf_masked', 'f', (), values=np.ma.masked_array(3.5, mask=True), fill_value=-999.)
+            f.createVariable('sf_plain', 'd', (), values=np.array(2.25))
+            path = os.path.join(tmp, 'scalar_%s.nc' % fl)
+
+            def t(f=f, path=path, fl=fl):
+                f.save(path, format=fl, verbose=0).close()
+                g = pncopen(path, format='netcdf')
+                try:
+                    a = np.ma.asarray(g.variables['sf_masked'][...])
+                    if not np.ma.getmaskarray(a).all():
+                        return 'masked scalar variable came back unmasked with value %r' % (np.ma.getdata(a).tolist(),)
+                    b = np.ma.asarray(g.variables['sf_plain'][...])
+                    if np.ma.getmaskarray(b).any() or float(b) != 2.25:
+                        return 'plain scalar variable came back as %r' % (b,)
+                finally:
+                    g.close()
+                return None
+            run.case('C07:scalar variables, masked and plain (%s)' % fl, fl, t)
         # explicit missing_value different from fill_value
         for mvv, fvv in ((-999.0, -1.0), (-1.0, -999.0)):
             f = P.PseudoNetCDFFile()
